@@ -139,6 +139,7 @@ def load_cfg(pid):
     cfg.setdefault("props_module", f"OxiVerif.Props.{pid}")
     cfg.setdefault("driver", f"drv_{low}")
     cfg.setdefault("bin", low)
+    cfg.setdefault("harness_dir", HARNESS)
     cfg.setdefault("level", "proof")
     cfg.setdefault("translate", [])
     cfg.setdefault("rule", "a case is non-trivial when the generator tagged it `nt`; distinct = distinct request lines")
@@ -151,7 +152,8 @@ def load_cfg(pid):
 
 
 def load_known(pid):
-    p = os.path.join(VERIF, "known_findings.json")
+    """known_findings/<pid>.json — committed, never written at run time."""
+    p = os.path.join(VERIF, "known_findings", pid + ".json")
     if not os.path.exists(p):
         return []
     return [e for e in json.load(open(p)).get("findings", []) if e.get("property") == pid]
@@ -179,8 +181,9 @@ def write_replay(pid, kind, header, reqs):
 
 def run_cases(cfg, pid, work, mode_args, timeout):
     """harness → cases.tsv → driver → list of dict(req, impl, tags, model, oracle)"""
-    binp = os.path.join(HARNESS, "target", "debug", cfg["bin"])
-    rc, out, dt = run([binp] + mode_args + ["--out", work], cwd=HARNESS, timeout=timeout)
+    hdir = os.path.join(VERIF, cfg["harness_dir"])
+    binp = os.path.join(hdir, "target", "debug", cfg["bin"])
+    rc, out, dt = run([binp] + mode_args + ["--out", work], cwd=hdir, timeout=timeout)
     if rc != 0:
         return None, f"harness exited {rc}: {out[-2000:]}", dt
     cases_path = os.path.join(work, "cases.tsv")
@@ -239,15 +242,20 @@ def main():
     gen_diff = ""
     if cfg["translate"]:
         with Lock(os.path.join(LEAN, ".lake", "verif.lock")):
-            rc, out, dt = run([sys.executable, os.path.join(VERIF, "tools", "translate.py")] + cfg["translate"], cwd=VERIF)
-        timings["translate_s"] = round(dt, 2)
-        for l in out.splitlines():
-            if l.startswith("TIE-BROKEN"):
-                broken.append(("translator", l))
-            if l.startswith("GEN-DIFF"):
-                gen_diff += l + "\n"
-        if rc != 0 and not any(k == "translator" for k, _ in broken):
-            broken.append(("translator", f"translate.py exited {rc}: {out[-1500:]}"))
+            dt_all = 0.0
+            for script in cfg["translate"]:
+                argv = script.split()
+                rc, out, dt = run([sys.executable, os.path.join(VERIF, "tools", argv[0])] + argv[1:], cwd=VERIF)
+                dt_all += dt
+                n_before = len(broken)
+                for l in out.splitlines():
+                    if l.startswith("TIE-BROKEN"):
+                        broken.append(("translator", l))
+                    if l.startswith("GEN-DIFF"):
+                        gen_diff += l + "\n"
+                if rc != 0 and len(broken) == n_before:
+                    broken.append(("translator", f"{script} exited {rc}: {out[-1500:]}"))
+        timings["translate_s"] = round(dt_all, 2)
 
     # ---- 2. Lean: theorems, audit, driver ---------------------------------------------
     pm = cfg["props_module"]
@@ -310,7 +318,7 @@ def main():
         len(theorems) if props_ok else max(0, len(declared) - len([f for f in failing if f in declared])))
 
     # ---- 3. harness build --------------------------------------------------------------
-    rc, out, dt = run(["cargo", "build", "--offline", "--bin", cfg["bin"]], cwd=HARNESS, timeout=3000)
+    rc, out, dt = run(["cargo", "build", "--offline", "--bin", cfg["bin"]], cwd=os.path.join(VERIF, cfg["harness_dir"]), timeout=3000)
     timings["cargo_s"] = round(dt, 2)
     harness_ok = rc == 0
     if not harness_ok:
